@@ -504,13 +504,13 @@ def seqFind {α : Type} [BEq α] (hay needle : List α) (start : Int) : Int :=
   if st > hay.length then -1 else seqFindFrom needle (hay.drop st) st
 
 /-- a slice bound `i` of a sequence of length `n`: negative counts from the end, then clipped to `0 .. n` -/
-def sliceBound (n : Nat) (i : Int) : Nat :=
+def sliceIdx (n : Nat) (i : Int) : Nat :=
   if i < 0 then (i + (n : Int)).toNat else min i.toNat n
 
 /-- `xs[lo:hi]` (step 1; a missing bound is `None`) -/
 def sliceSeq {α : Type} (xs : List α) (lo hi : Option Int) : List α :=
-  let a := match lo with | none => 0 | some i => sliceBound xs.length i
-  let b := match hi with | none => xs.length | some i => sliceBound xs.length i
+  let a := match lo with | none => 0 | some i => sliceIdx xs.length i
+  let b := match hi with | none => xs.length | some i => sliceIdx xs.length i
   (xs.take b).drop a
 
 end Py
